@@ -4,6 +4,7 @@ mod spec;
 mod p_kmer;
 mod p_min;
 mod p_posmaps;
+mod p_cov;
 mod p_cgr;
 mod p_rows;
 mod util;
@@ -89,6 +90,7 @@ fn main() {
         "c09" => p_min::c09(&o),
         "c03" => p_posmaps::c03(&o),
         "c04" => p_rows::c04(&o),
+        "c08" => p_cov::c08(&o),
         "c11" => p_cgr::c11(&o),
         "c14" => p_rows::c14(&o),
         "c18" => p_min::c18(&o),
